@@ -29,9 +29,11 @@ var synQuoted = []string{"q", "a b", "x`y", "we ird\"", "by", "and", "é", "1", 
 var synFuncs = []string{"f", "g", "sum", "min", "max", "not", "isnull", "isnotnull", "iff", "iif", "strcat", "tolower", "toupper", "now", "count", "countif", "coalesce", "asc", "where",
 	"NOT", "ISNULL", "IsNull", "STRCAT", "IFF", "COUNT", "ToLower", "NOW", "CountIf"}
 var synNums = []string{"0E5", "00E1", "0E-3", "0.0E5", "0", "1", "2", "42", "007", "1.5", ".5", "5.", "1e3", "1E-2", "2.5e+3", "0x1F", "0XaB", "0e0", "18446744073709551615", "00.10"}
+
 // integer spellings around the widths integers are stored in
 var synInts = []string{"0", "00", "007", "2147483647", "2147483648", "4294967295", "4294967296", "9007199254740993", "9223372036854775807", "9223372036854775808", "18446744073709551615",
 	"18446744073709551616", "99999999999999999999999", "0x0", "0x7fffffff", "0x80000000", "0xFFFFFFFF", "0x7fffffffffffffff", "0x8000000000000000", "0xffffffffffffffff", "0x00000000000000000ff", "0X10"}
+
 // IntSpellings are the integer literal spellings the directed families use.
 var IntSpellings = synInts
 
